@@ -302,7 +302,7 @@ Proof.
               (fun x Hx => proj1 (step_allocate_C14 o x Hx))
               (fun x Hx => proj1 (step_perform_C14 o x Hx))
               (fun x Hx => proj1 (step_record_C14 o x Hx))
-              (fun x n Hx => COK_same x (with_time x n) (fun t => eq_refl) (fun k => eq_refl) Hx)
+              (fun x Hx => COK_same x (with_time x (S (time x))) (fun t => eq_refl) (fun k => eq_refl) Hx)
               _ _ _ Htr H0) as [Hall _].
   eapply Forall_impl; [|exact Hall]. intros [[k ph] sn]. cbn. destruct ph; exact (fun h => h).
 Qed.
